@@ -233,6 +233,16 @@ def run_unit(path, rlimit=None, seed=None, extra_args=(), quarantine=(), inline=
                 keep_soft.extend(mine)
                 res.setdefault('suppressed_after_lost_anchor', []).extend(fl['label'] or fl['kind'] for fl in fails)
         u.soft_undecided = keep_soft
+    # proof hints (assertions the templates insert to guide the solver) are not obligations of a property: a hint that
+    # fails next to a real failure of the same function is dropped; a hint that fails alone leaves the function's proof
+    # incomplete (everything after it was verified under the failed assertion's assumption): undecided, never an alarm
+    hints = [fl for fl in real if fl.get('label') == 'proof']
+    if hints:
+        for fnname in sorted(set(fl['fn'] for fl in hints)):
+            others = [fl for fl in real if fl['fn'] == fnname and fl.get('label') != 'proof']
+            if not others:
+                undecided.append('a proof hint of the template no longer holds in %s: its obligations are not decided' % fnname)
+        real = [fl for fl in real if fl.get('label') != 'proof']
     # residual clauses: reported only when none of the clauses they are the remainder of failed
     failed_labels = set(fl['label'] for fl in real if fl['label'])
     kept = []
